@@ -81,7 +81,9 @@ META = {
         "transforms remove nodes after the footnotes were collected, the attached transition is handed to a pending transform "
         "(registered once on every path that builds it) whose priority lies between the last of those removers and "
         "Transitions (all read from the docutils sources) and which removes it exactly when all nodes in front of it are such "
-        "leading nodes - and under a test for an existing final transition (not adjacent) whose look-out goes down the tree (advancing loop, "
+        "leading nodes; in both places the class set may cover, besides those leading classes (and footnote in the guard), only "
+        "system_message - a superclass such as PreBibliographic/Invisible that also covers raw, comment, target ... (class "
+        "hierarchy read from docutils/nodes.py) is a violation - and under a test for an existing final transition (not adjacent) whose look-out goes down the tree (advancing loop, "
         "recursion or docutils traversal), because docutils later hoists a transition that ends the last section. "
         "(R10) SortFootnotes ranks a footnote by the position of its FIRST reference (list.index, or a first-wins table "
         "- setdefault / `not in` guarded store / reversed fill - over autofootnote_refs or over the local list of their "
@@ -2357,6 +2359,32 @@ def _docutils_ancestors(cls_dotted: str) -> set[str]:
     return out
 
 
+def _docutils_element_descendants(cls_dotted: str) -> set[str]:
+    """the element classes of docutils.nodes that are (subclasses of) ``cls_dotted`` (read from docutils/nodes.py)"""
+    corpus = _CUR["corpus"]
+    cache = corpus.cache("c11-docutils-node-ancestors", lambda: {})
+    m = corpus.sibling("docutils/nodes.py")
+    if not cache:
+        for name in m.classes:
+            if "." not in name:
+                cache[f"docutils.nodes.{name}"] = _docutils_ancestors(f"docutils.nodes.{name}")
+    return {c for c, anc in cache.items() if cls_dotted in anc and "docutils.nodes.Element" in anc and c != "docutils.nodes.Element"}
+
+
+# besides the classes docutils' Transitions skips (title, subtitle), only messages may be ignored in front of the
+# footnote block: everything else a document can start with (raw HTML, comments, targets, paragraphs ...) is content
+NOT_CONTENT_EITHER = {"docutils.nodes.system_message"}
+
+
+def _too_wide(class_set: set[str], also_allowed: set[str] = frozenset()) -> list[str]:
+    """element classes covered by ``class_set`` that are neither leading nodes, messages nor ``also_allowed``"""
+    allowed = _transition_header_classes() | NOT_CONTENT_EITHER | set(also_allowed)
+    covered = set()
+    for c in class_set:
+        covered |= _docutils_element_descendants(c)
+    return sorted(x.rsplit(".", 1)[-1] for x in covered - allowed)
+
+
 def _transition_header_classes() -> set[str]:
     """The node classes docutils' Transitions transform skips when it decides that a transition 'begins' the
     document (read from docutils/transforms/misc.py): a transition directly behind them is an error."""
@@ -2397,6 +2425,9 @@ def _some_child_is_not_a_footnote(f: FunctionInfo, t: ast.expr, holds: bool) -> 
         if right:
             tested = _LAST_CLASS_SET.get("classes", set())
             missing = sorted(c.rsplit(".", 1)[-1] for c in _transition_header_classes() if not (_docutils_ancestors(c) & tested))
+            wide = _too_wide(tested, {"docutils.nodes.footnote"})
+            if wide and not missing:
+                return f"children of class {', '.join(wide[:6])}{' ...' if len(wide) > 6 else ''} are taken for 'no content' too (`{short(t, 70)}`): a document that starts with e.g. an HTML block, a comment or a target and otherwise holds footnotes loses its configured transition, although docutils only objects to a transition directly behind the title/subtitle"
             if missing:
                 return f"the children that may precede the footnote block without separating it from the start of the document are taken to be footnotes only, not {'/'.join(missing)} (`{short(t, 70)}`): docutils' DocTitle transform promotes a lone heading to the document title/subtitle before the footnotes are collected, and docutils' Transitions transform reports a transition directly behind them ('Document or section may not begin with a transition'), e.g. `# Title[^a]` + `[^a]: text`"
             return None
@@ -2598,6 +2629,9 @@ def _recheck_before_transitions(corpus: Corpus, rep: Report, fi: FunctionInfo, t
                     missing = sorted(c.rsplit(".", 1)[-1] for c in _transition_header_classes() if not (_docutils_ancestors(c) & cs))
                     if missing:
                         problems.append(f"{ci.name}.apply does not count {'/'.join(missing)} among the leading nodes")
+                    wide = _too_wide(cs)
+                    if wide:
+                        problems.append(f"{ci.name}.apply also treats {', '.join(wide[:6])}{' ...' if len(wide) > 6 else ''} in front of the transition as 'nothing' (`{short(e_.args[1], 50)}`): docutils only objects to a transition directly behind the title/subtitle, so with e.g. an HTML block, a comment or a target before the footnotes the configured transition is removed although the document has content")
                     sl_ = [x for x in ast.walk(g_.iter) if isinstance(x, ast.Subscript) and isinstance(x.slice, ast.Slice)]
                     if not any(isinstance(x, ast.Attribute) and x.attr == "children" for x in ast.walk(g_.iter)) and not sl_:
                         problems.append(f"{ci.name}.apply does not look at the nodes in front of the transition (`{short(g_.iter, 40)}`)")
@@ -3557,6 +3591,7 @@ def mutants(corpus: Corpus):
     tif2 = find_node(cf, lambda n: isinstance(n, ast.If) and bool(_option_reads(cf, n.test, "myst_footnote_transition")))
     qcall = next((x for x in ast.walk(tif2.test) if isinstance(x, ast.Call) and dotted(x.func) == "isinstance" and isinstance(x.args[1], (ast.BinOp, ast.Tuple)) and "footnote" in unparse(x.args[1])), None) if tif2 is not None else None
     add("c11-revert-404c5d4-promoted-title-not-counted", "C11.R9", tm, qcall.args[1] if qcall is not None else None, "nodes.footnote", "not the first element", True)
+    add("c11-transition-guard-ignores-all-prebibliographic-nodes", "C11.R9", tm, qcall.args[1] if qcall is not None else None, "nodes.footnote | nodes.PreBibliographic", "not the first element")
     # ---- R9 (d): revert of fix 5f2b310 and partial weakenings (the footnote transition is not re-checked before Transitions)
     np_ = find_stmt(cf, lambda n: isinstance(n, ast.Expr) and isinstance(n.value, ast.Call) and isinstance(n.value.func, ast.Attribute) and n.value.func.attr == "note_pending" and "transition" in unparse(n))
     add("c11-revert-5f2b310-transition-not-rechecked", "C11.R9", tm, np_, "pass", "re-checked after docutils removed", True)
@@ -3571,6 +3606,9 @@ def mutants(corpus: Corpus):
         add("c11-recheck-removes-when-any-leading-node", "C11.R9", tm, q_.func if q_ is not None else None, "any", "re-checked after docutils removed")
         ic_ = find_node(dap, lambda n: isinstance(n, ast.Call) and dotted(n.func) == "isinstance" and isinstance(n.args[1], (ast.BinOp, ast.Tuple))) if dap is not None else None
         add("c11-recheck-forgets-subtitle", "C11.R9", tm, ic_.args[1] if ic_ is not None else None, "nodes.title | nodes.system_message", "re-checked after docutils removed")
+        # the class set is widened to a superclass that also covers content nodes (class of seed9 out-c11/1)
+        add("c11-recheck-ignores-all-prebibliographic-nodes", "C11.R9", tm, ic_.args[1] if ic_ is not None else None, "nodes.PreBibliographic", "re-checked after docutils removed")
+        add("c11-recheck-ignores-invisible-nodes", "C11.R9", tm, ic_.args[1] if ic_ is not None else None, "nodes.title | nodes.subtitle | nodes.system_message | nodes.Invisible", "re-checked after docutils removed")
         if np_ is not None:
             ni_ = " " * np_.col_offset
             add("c11-recheck-registered-only-without-sections", "C11.R9", tm, np_, f"if not list(self.document.findall(nodes.section)):\n{ni_}    " + _seg(tm, np_).replace("\n", "\n    "), "re-checked after docutils removed")
